@@ -1,6 +1,6 @@
 (* C20  No client byte sequence can crash or wedge a connection.  Property theorems only.
-   The unchanged code does NOT satisfy the property outright: five classes of client input still
-   panic (known findings D9 / D14, listed in /verif/known_findings.json).  Accordingly:
+   The unchanged code does NOT satisfy the property outright: four classes of client input still
+   panic (known findings D14, listed in /verif/known_findings.json).  Accordingly:
      - C20_terminates:     for ALL inputs the connection terminates (no loop runs forever);
      - C20_only_known:     for ALL inputs, every panic is one of the listed known sites
                            (for shims that cannot panic by themselves);
@@ -22,7 +22,8 @@ Proof. exact run_on_panics. Qed.
 
 (* ... and when the shim cannot panic by itself (no From<Value> conversion requested, only defined
    error kinds, no NULL hidden in a Some), ONLY the known client-reachable sites remain:
-   out-of-order fragment ids (D9) and malformed COM_STMT_EXECUTE parameter blocks (D14) *)
+   malformed COM_STMT_EXECUTE parameter blocks (D14; PFragSeq is listed in client_sites but has been
+   unreachable since the D9 fix: next() never panics, see Proofs/Totality.v next_panics) *)
 Theorem C20_only_known : forall fpext fptrunc errtab cfg sc s p,
   scripts_tame errtab sc ->
   fst (run_on fpext fptrunc errtab cfg sc s) = RPanic p -> In p client_sites.
@@ -35,9 +36,6 @@ Proof. exact next_consumes. Qed.
 
 (* the known findings are real: concrete client byte streams (corpus/KF_*.case) on which the model
    -- and, replayed by ./check C20, the real code -- panics at exactly the listed site *)
-Theorem C20_frag_seq_refuted :
-  fst (run_on idN idN errtab cfg0 kf_frag_seq_scripts kf_frag_seq_world) = RPanic PFragSeq.
-Proof. exact kf_frag_seq_panics. Qed.
 Theorem C20_params_split_refuted :
   fst (run_on idN idN errtab cfg0 kf_params_split_scripts kf_params_split_world) = RPanic PParamsSplitNull.
 Proof. exact kf_params_split_panics. Qed.
